@@ -82,6 +82,12 @@ CHECKS["C10"] = {
     "text": "Payload lengths on every chunk/element boundary up to 120 kB x contents; encoder write scripts and decoder read scripts with <=2 deviations; every separator rewritten to each ASCII whitespace / doubled / CRLF; 4 markups at every outside-pre offset; every truncation; all token strings <=5 (<=6 thorough) over 16 tokens; endless inputs with bounded-buffering measurement and 60 s watchdog re-run 3x.",
     "design_ref": "§3 C10", "note": ENUM_NOTE,
 }
+CHECKS["C14"] = {
+    "script": "c14.py", "category": "model_checking",
+    "technique": "exhaustive enumeration of request matrices and request pairs through the real handlers under the controlled scheduler (virtual time, DPOR over the broker's goroutines), with a post-request probe",
+    "text": "Single requests: 5 methods x 12 paths (all endpoints + near misses) x 15 body classes (empty, valid, mutated-valid, legacy, garbage, 99 999/100 000/100 001/200 000 bytes, bad/absent fingerprint) x 6 Snowflake-NAT-Type values x 3 broker states; all ordered pairs (triples in thorough) from a reduced alphabet; legacy vs versioned request on identical states. Oracle: the handler returns (no panic), status is valid, virtual time <= 10 s, a fresh proxy+client happy path still works afterwards, legacy outcome equals the versioned outcome under the documented status mapping.",
+    "design_ref": "§3 C14", "note": SCHED_NOTE + " Handlers are registered on a fresh mux with the registrations main() makes; the routing table in main() and raw-socket behaviour of net/http are not covered (tier 1 only).",
+}
 CHECKS["C15"] = {
     "script": "c15.py", "category": "model_checking",
     "technique": "stateless model checking of the real Peers/connectLoop/WebRTCPeer.Close under a controlled scheduler (DPOR + sleep sets, virtual time) + enumeration of constructor failure kinds with real pion",
